@@ -105,6 +105,29 @@ Graphs == [
   tagsub |-> [nodes |-> TagNodes, roots |-> <<Rt("r1", "xlatestx"), Rt("r2", "latest"), Rt("r3", "Latest")>>, victim |-> "r1"],
   tagfull |-> [nodes |-> TagNodes, roots |-> <<Rt("r1", "rc-latest"), RtF("r2", "full", "registry.example/repo:latest"),
                                                Rt("r3", "test")>>, victim |-> "r1"],
+  \* REPEATED DIGESTS (round 5).  A manifest may list the same layer digest more than once (old Docker built images:
+  \* the empty layer of every metadata instruction; identical COPY layers); an index may list the same manifest for
+  \* two platforms; an index.json may carry two tags for one image.  The archive holds each blob once, but every
+  \* LIST derived from the manifest (manifest.json Layers, the imported manifest, the handlers of the importer)
+  \* has to keep all positions.  Shapes of the layer sequence: AA, ABA, AAB (Docker media types), AEE (E = empty blob).
+  rep2 |-> [nodes |-> [m |-> Im("oci", <<K("c", "cfg"), K("l1", "lay"), K("l1", "lay")>>, "", ""), c |-> Bl("cfg"), l1 |-> Bl("norm")],
+            roots |-> <<Rt("m", "v1")>>, victim |-> "l1"],
+  rep3 |-> [nodes |-> [m |-> Im("oci", <<K("c", "cfg"), K("l1", "lay"), K("l2", "lay"), K("l1", "lay")>>, "", ""),
+                       c |-> Bl("cfg"), l1 |-> Bl("norm"), l2 |-> Bl("norm")],
+            roots |-> <<Rt("m", "v1")>>, victim |-> "l1"],
+  drep |-> [nodes |-> [m |-> Im("docker", <<K("c", "cfg"), K("l1", "lay"), K("l1", "lay"), K("l2", "lay")>>, "", ""),
+                       c |-> Bl("cfg"), l1 |-> Bl("norm"), l2 |-> Bl("norm")],
+            roots |-> <<Rt("m", "v1")>>, victim |-> "l2"],
+  repe |-> [nodes |-> [m |-> Im("oci", <<K("c", "cfg"), K("l1", "lay"), K("l0", "lay"), K("l0", "lay")>>, "", ""),
+                       c |-> Bl("cfg"), l1 |-> Bl("norm"), l0 |-> Bl("empty")],
+            roots |-> <<Rt("m", "v1")>>, victim |-> "l0"],
+  \* an index that lists one manifest twice (the entries differ in their platform only)
+  idxrep |-> [nodes |-> [i |-> Ix("oci", <<K("m", "man"), K("m", "man")>>),
+                         m |-> Im("oci", <<K("c", "cfg"), K("l", "lay")>>, "", ""), c |-> Bl("cfg"), l |-> Bl("norm")],
+              roots |-> <<Rt("i", "v1")>>, victim |-> "m"],
+  \* archive of another tool: index.json names ONE image under two tags
+  multisame |-> [nodes |-> [m1 |-> Im("oci", <<K("c1", "cfg"), K("ls", "lay")>>, "", ""), c1 |-> Bl("cfg"), ls |-> Bl("norm")],
+                 roots |-> <<Rt("m1", "v1"), Rt("m1", "v2")>>, victim |-> "ls"],
   \* archive of another tool: index.json with two images sharing a layer
   multi |-> [nodes |-> [m1 |-> Im("oci", <<K("c1", "cfg"), K("ls", "lay")>>, "", ""),
                         m2 |-> Im("oci", <<K("c2", "cfg"), K("ls", "lay")>>, "", ""),
@@ -235,7 +258,9 @@ Mk(gn, lp, sn) ==
        IN [kind |-> "docker", g |-> gn, lp |-> lp, sel |-> Sels[sn], nodes |-> g.nodes, roots |-> g.roots,
            docker |-> DockerOf(g), entries |-> E, want |-> "",
            dkwant |-> [cfg |-> m.kids[1].n, layers |-> [i \in 1..(Len(m.kids) - 1) |-> m.kids[i + 1].n]],
-           maxpass |-> 2, pretag |-> "", preblobs |-> {}, premans |-> {}, bad |-> ""]
+           maxpass |-> 2, pretag |-> "", preblobs |-> {}, premans |-> {},
+           \* a repeated layer is a repeated PATH in the Layers list of manifest.json (as found: C09-4)
+           bad |-> IF \E i, j \in 2..Len(m.kids) : i # j /\ m.kids[i].n = m.kids[j].n THEN "duppath" ELSE ""]
   ELSE IF gn \in DOMAIN Graphs
   THEN LET g == Graphs[gn]
            E == WithLink(BaseEntries(g), g.victim, IF lp \in DOMAIN Orders THEN "none" ELSE lp)
@@ -255,13 +280,15 @@ Mk(gn, lp, sn) ==
            maxpass |-> 2 + NLinks(E) + (IF gn = "dksym" THEN 1 ELSE 0), pretag |-> "", preblobs |-> {}, premans |-> {},
            bad |-> IF gn = "dksame" THEN "duppath" ELSE ""]
 
-OciSmall == {"eidx", "single1", "emptyl", "inline", "dimg", "art", "alg512", "man512"}         \* archives of <= 6 entries
-OciMid == {"single1m", "single2", "extl", "nested", "blobent", "unkent", "emptyent", "sharedent", "idxsame"}   \* 7
+OciSmall == {"eidx", "single1", "emptyl", "inline", "dimg", "art", "alg512", "man512", "rep2", "idxrep"}   \* archives of <= 6 entries
+OciMid == {"single1m", "single2", "extl", "nested", "blobent", "unkent", "emptyent", "sharedent", "idxsame",
+           "rep3", "drep", "repe"}   \* 7
 OciBig == {"idx2", "dock", "multi"}                                        \* 8
 LinkAll == (LinkOK \cup LinkBad) \ {"none"}
 DkIds == ({"dk1", "dksym", "dksame", "dkdot"} \X {"none"} \X {"def"})
          \cup ({"dk2"} \X {"none"} \X {"dkname"}) \cup ({"dk1"} \X {"dotslash", "junk"} \X {"def"})
-MultiIds == {"multi"} \X {"none"} \X {"tag1", "tag2", "name2", "dig2"}
+MultiSameIds == {"multisame"} \X {"none"} \X {"tag1", "tag2", "name2"}
+MultiIds == ({"multi"} \X {"none"} \X {"tag1", "tag2", "name2", "dig2"}) \cup MultiSameIds
 \* related tag names x every order of the index.json entries x selection
 OrderNames == DOMAIN Orders
 TagIds == ({"tagsuf"} \X OrderNames \X {"tlatest", "nlatest", "nrc", "dsel"})
@@ -275,13 +302,15 @@ DkRestIds(G) == G \X {"dkrest"} \X {"dkrest"}
 QuickIds == ({"eidx", "single1", "art"} \X {"none"} \X {"def"})
             \cup ({"eidx"} \X LinkAll \X {"def"})
             \cup ({"art"} \X {"symroot", "symsib"} \X {"def"})
-            \cup DkIds \cup DkRestIds({"single1"}) \cup TagQuickIds
+            \cup DkIds \cup DkRestIds({"single1", "rep2"}) \cup TagQuickIds
 \* small: the other archives of <= 6 entries
 SmallIds == ((OciSmall \ {"eidx", "single1", "art"}) \X {"none"} \X {"def"})
             \cup ({"art"} \X {"symabs", "hardext", "symup", "hardshared", "idxlink", "dotslash", "junk", "dirs"} \X {"def"})
             \cup ({"single1"} \X {"none"} \X {"preblobs", "preall", "prestale", "dig1"})
             \cup ({"alg512"} \X {"symroot"} \X {"def"})
-            \cup DkRestIds({"emptyl", "dimg", "alg512", "extl"})
+            \cup DkRestIds({"emptyl", "dimg", "alg512", "extl", "rep3", "drep", "repe"})
+            \cup MultiSameIds
+            \cup ({"rep2"} \X {"symroot", "dotslash"} \X {"def"}) \cup ({"rep2"} \X {"none"} \X {"preblobs", "preall"})
             \cup TagIds
 \* mid: archives of 7 entries
 MidIds == (OciMid \X {"none"} \X {"def"})
@@ -291,12 +320,13 @@ MidIds == (OciMid \X {"none"} \X {"def"})
           \cup ({"single1m"} \X {"symroot", "hardext", "symsib"} \X {"def"})
 \* big: archives of 8 entries (one of them explored exhaustively, all of them by random orders)
 BigIds == ((OciBig \ {"multi"}) \X {"none"} \X {"def"}) \cup MultiIds
+          \cup ({"rep3"} \X {"symroot", "hardext"} \X {"def"})
           \cup ({"art"} \X {"chain3"} \X {"def"})
           \cup ({"nested", "blobent", "single2"} \X {"symroot", "dotslash"} \X {"def"})
 BigBfsIds == {"idx2"} \X {"none"} \X {"def"}         \* (C09_mc_big.cfg: 0.87 M states, run by hand)
 \* the 7 entry archives explored exhaustively in the thorough tier; the others (same automaton up to blob
 \* attributes) and the 8 entry ones are explored by random orders (C09_sim_big.cfg)
-MidBfsIds == ({"single2", "nested", "blobent", "unkent", "emptyent", "sharedent", "idxsame"} \X {"none"} \X {"def"})
+MidBfsIds == ({"single2", "nested", "blobent", "unkent", "emptyent", "sharedent", "idxsame", "rep3"} \X {"none"} \X {"def"})
              \cup ({"art"} \X {"chain2"} \X {"def"})
              \cup ({"blobent"} \X {"none"} \X {"preblobs"}) \cup ({"nested"} \X {"none"} \X {"preall"})
              \cup ({"single1"} \X {"symroot", "symsib"} \X {"def"}) \cup ({"single1m"} \X {"symroot"} \X {"def"})
@@ -306,7 +336,8 @@ ThoroughIds == QuickIds \cup SmallIds \cup MidIds \cup BigIds
 \* (the related-name archives vary in the order of index.json, not of the tar entries: random tar orders only)
 GenSmallIds == {x \in ThoroughIds \ TagIds : Cardinality(Mk(x[1], x[2], x[3]).entries) <= 6}
 GenLargeIds == ThoroughIds \ GenSmallIds
-GenTinyIds == {x \in ThoroughIds \ TagIds : Cardinality(Mk(x[1], x[2], x[3]).entries) <= 5}
+\* (quick: the two-tags-one-image archive only by random orders, every order in the thorough tier)
+GenTinyIds == {x \in ThoroughIds \ (TagIds \cup MultiSameIds) : Cardinality(Mk(x[1], x[2], x[3]).entries) <= 5}
 \* the classes on which the importer failed as found (expected counterexamples of the as-found switches) and liveness
 S6Ids == {"blobent", "unkent", "sharedent"} \X {"none"} \X {"def"}
 LinkBadIds == {"eidx"} \X LinkBad \X {"def"}
